@@ -17,6 +17,7 @@ import random
 import re
 import shutil
 import socket
+import sys
 import tempfile
 import threading
 from pathlib import Path
@@ -70,9 +71,15 @@ CLASSES = {
     'deep_list': b'change m:p ' + b'[' * 6000 + b']' * 6000,
     'deep_dict': b'logging m ' + b'{"a":' * 6000 + b'1' + b'}' * 6000,
     'huge_int': b'change m:p ' + b'9' * 5000,          # int(): more digits than sys.get_int_max_str_digits()
+    # more of the dispatcher: constant, module that failed to initialise, default accessibles, utf-8 text
+    'read_k': b'read m:k', 'change_k': b'change m:k 1', 'read_broken': b'read broken:p',
+    'change_broken': b'change broken:p 1', 'do_broken': b'do broken:cmd', 'read_m': b'read m',
+    'change_m': b'change m 5', 'do_stop': b'do m:stop', 'change_t': b'change m:t "\xc3\xa9\xe2\x82\xac \\u00fc"',
+    'read_t': b'read m:t', 'surrogate_t': b'change m:t "\\ud800 \\udc00"',
 }
 CORE = ['read_p', 'change_p3', 'change_p7', 'activate', 'deactivate_m', 'empty', 'bad_json', 'lead_badjson',
         'bad_utf8_act', 'crlf', 'c_ident', 'unknown']     # == Core of Gen_Wire_classes_*.cfg
+NODE_PARAMS = {'m:' + p for p in ('p', 's', 'hw', 'k', 't', 'value', 'target')}       # exported by the world's module
 GAMMA1 = {'N': b'\n', 'R': b'\r', 'S': b' ', 'x': b'x', 'y': b'y'}
 GAMMA2 = {'N': b'\n', 'R': b'\r', 'S': b' ', 'x': b'\xc3', 'y': b'\xa9'}   # "xy" = e-acute, alone invalid UTF-8
 
@@ -175,7 +182,7 @@ def a_in(line):
 @functools.lru_cache(maxsize=8192)
 def a_out(line):
     o = {'action': '', 'spec': '', 'iserr': False, 'base': '', 'err': '', 'utf8': True, 'strict': True,
-         'nanonly': False, 'dig': ''}
+         'nanonly': False, 'dig': '', 'evt': False}
     text = _dec(line)
     if text is None:
         o['utf8'] = False
@@ -201,6 +208,9 @@ def a_out(line):
         if isinstance(val, list) and val and isinstance(val[0], str):
             o['err'] = _intern(val[0])
         core = o['err']
+        # an event reporting a parameter's read error, not the answer to a request line "update ..." (a guess
+        # from the text, only used where the sender cannot be observed: FakeSocket.sendall knows better)
+        o['evt'] = action == 'error_update' and spec in NODE_PARAMS and o['err'] != 'ProtocolError'
     elif isinstance(val, list) and len(val) == 2 and isinstance(val[1], dict):
         core = json.dumps(val[0], sort_keys=True)      # qualifiers (timestamps) are not part of the answer
     else:
@@ -213,7 +223,7 @@ def a_out(line):
 
 # ---------------------------------------------------------------- the world: real dispatcher + one module
 _MOD = None
-HW = {'fin': 0.5, 'nan': float('nan'), 'inf': float('inf')}
+HW = {'fin': 0.5, 'nan': float('nan'), 'inf': float('inf'), 'err': None, 'exc': 'exc'}      # err, exc: reading fails
 
 
 def _mod_class():
@@ -222,6 +232,7 @@ def _mod_class():
         boot()
         import frappy.protocol.interface.handler as hmod
         from frappy.datatypes import FloatRange, StringType
+        from frappy.errors import HardwareError
         from frappy.modules import Command, Module, Parameter
         hmod.print = lambda *a, **k: None        # the request loop prints tracebacks to stdout
         # diagnostics that render every frame of the stack with its local variables (here: the harness'
@@ -233,10 +244,23 @@ def _mod_class():
             p = Parameter('float with limits', FloatRange(0, 10), export='p', readonly=False, default=1.0)
             s = Parameter('text', StringType(), export='s', readonly=False, default='a')
             hw = Parameter('readback of the hardware', FloatRange(), export='hw', default=0.5)
+            k = Parameter('a constant', FloatRange(), export='k', constant=3.5)
+            t = Parameter('utf-8 text', StringType(isUTF8=True), export='t', readonly=False, default='\u00e9')
+            value = Parameter('main value', FloatRange(), default=2.0)
+            target = Parameter('main target', FloatRange(0, 100), readonly=False, default=0.0)
             _hw = 0.5
 
             def read_hw(self):
+                if self._hw is None:
+                    raise HardwareError('sensor gone (\u00b0C)')
+                if self._hw == 'exc':
+                    return 1 / 0                     # a driver bug: not a SECoP error
                 return self._hw
+
+            @Command(export='stop')
+            def stop(self):
+                """no argument, no result"""
+                self.log.info('stopped \u00fc')
 
             def write_p(self, value):
                 return value
@@ -266,12 +290,13 @@ class World:
 
         class Srv:
             restart = shutdown = None
-            module_cfg = {}
+            module_cfg = {'broken': {'cls': 'verif_no_such_package.Broken'}}    # a module that failed to import
             detailed_errors = detailed
         self.srv = srv = Srv()
-        srv.log = LoggerStub('srv')
+        srv.log = Log('srv')
         srv.secnode = SecNode('node', LoggerStub('secnode'), {}, srv)
         srv.secnode.add_secnode_property('description', 'verif node')
+        srv.secnode.failed_modules.add('verif_no_such_package')
         srv.dispatcher = Dispatcher('disp', LoggerStub('disp'), {}, srv)
         self.mod = mod('m', World._root.getChild('m'), {'description': 'generated'}, srv)
         self.mod._hw = HW[hw]
@@ -280,19 +305,18 @@ class World:
         self.events = []                      # the trace
         self.raw = []                         # parallel: concrete bytes per event
 
-    def connect(self, sock):
+    def connect(self, sock, addr=None):
         from frappy.protocol.interface.tcp import TCPRequestHandler
-        h = object.__new__(TCPRequestHandler)     # socketserver would call setup/handle/finish from __init__
-        h.request, h.client_address, h.server, h.log = sock, ('127.0.0.1', 10767), self.srv, None
+        h = object.__new__(TCPRequestHandler)     # setup / handle / finish called one by one (see serve_ctor)
+        h.request, h.client_address, h.server, h.log = sock, addr or ADDRS[0], self.srv, None
         sock.handler, sock.world = h, self
         h.setup()
         return h
 
     def serve(self, h):
-        sock = h.request
         try:
             h.handle()
-            reason = 'eof' if sock.eof else 'early'
+            reason = 'returned'
         except Exception as e:   # what RequestHandler.__init__ would log before closing the connection
             reason = 'raised'
             self.raw.append(repr(e)[:200])
@@ -300,14 +324,51 @@ class World:
         self.raw.append(reason)
         return reason
 
+    def serve_ctor(self, sock, addr):
+        """the way socketserver does it: the constructor runs setup, handle and finish"""
+        from frappy.protocol.interface.tcp import TCPRequestHandler
+        sock.world = self
+        n = len(self.srv.log.errors)
+        try:
+            TCPRequestHandler(sock, addr, self.srv)
+            reason = 'raised' if len(self.srv.log.errors) > n else 'returned'
+        except Exception as e:
+            reason = 'raised'
+            self.srv.log.errors.append(repr(e))
+        if any(getattr(c, 'request', None) is sock for c in self.srv.dispatcher._connections):
+            reason = 'raised'                      # not deregistered: finish() did not run
+            self.srv.log.errors.append('connection still registered with the dispatcher')
+        self.events.append({'ev': 'handler_end', 'reason': reason})
+        self.raw.append(reason if reason == 'returned' else self.srv.log.errors[n:][:1])
+        return reason
+
+
+ADDRS = [('127.0.0.1', 10767), ('::ffff:192.168.1.5', 40000, 0, 0), ('::1', 50000, 0, 0), ('fe80::1', 1, 0, 3)]
+RESET = 'reset'          # segment marker: receiving fails (connection reset by peer)
+FAILS = {'pipe': BrokenPipeError, 'timeout': socket.timeout, 'reset': ConnectionResetError, 'other': ValueError}
+
+
+class Log(LoggerStub):
+    """remembers what was logged as an error (the constructor of the handler logs exceptions of handle())"""
+
+    def __init__(self, name='log'):
+        LoggerStub.__init__(self, name)
+        self.errors = []
+
+    def error(self, fmt, *args, **kw):
+        if str(fmt).startswith('Traceback'):         # RequestHandler.__init__: log.error(formatException())
+            self.errors.append(str(fmt)[-300:])
+
 
 class FakeSocket:
-    """recv yields the scripted segments (never more than asked for), then b''; None = time-out"""
+    """recv yields the scripted segments (never more than asked for), then b''; None = time-out, RESET = error;
+    the `failat`-th sendall writes half of its data and fails"""
 
-    def __init__(self, segments, role='main', active=False):
+    def __init__(self, segments, role='main', active=False, failat=None, failexc='pipe'):
         self.segs = [s for s in segments if s is None or s]
         self.role = role
         self.active = active
+        self.failat, self.failexc, self.sends, self.failed = failat, failexc, 0, False
         self.eof = False
         self.acc = b''
         self.outacc = b''
@@ -315,30 +376,46 @@ class FakeSocket:
         self.bufs = []       # handler buffer seen at every recv call
         self.nreplies = []   # replies emitted before every recv call
         self.replies = 0
+        self.pend = []
         self.handler = self.world = None
 
     def settimeout(self, t):
         pass
 
     def shutdown(self, how):
-        pass
+        if self.failed or RESET in self.segs:        # like a real socket whose peer is gone
+            raise OSError(107, 'Transport endpoint is not connected')
 
     def close(self):
         pass
+
+    def _handler(self):
+        if self.handler is None:
+            self.handler = next(c for c in self.world.srv.dispatcher._connections
+                                if getattr(c, 'request', None) is self)
+        return self.handler
 
     def recv(self, n):
         self.calls += 1
         if self.eof or self.calls > 5000:
             raise RuntimeError('recv called again after end of input')
-        self.bufs.append(bytes(self.handler.data))
+        self.bufs.append(bytes(self._handler().data))
         self.nreplies.append(self.replies)
         if not self.segs:
             self.eof = True
+            if self.role == 'main':
+                self.world.events.append({'ev': 'peer', 'what': 'eof'})
+                self.world.raw.append('eof')
             return b''
         seg = self.segs[0]
         if seg is None:
             self.segs.pop(0)
             raise socket.timeout()
+        if seg == RESET:
+            self.eof = True
+            self.world.events.append({'ev': 'peer', 'what': 'reset'})
+            self.world.raw.append('reset')
+            raise ConnectionResetError(104, 'Connection reset by peer')
         piece = seg[:n]
         if len(seg) > n:
             self.segs[0] = seg[n:]
@@ -348,22 +425,41 @@ class FakeSocket:
             parts = (self.acc + piece).split(b'\n')
             self.acc = parts.pop()
             if parts:                 # (segments completing no line tell the spec nothing)
-                self.world.events.append({'ev': 'chunk_in', 'reqs': [a_in(x) for x in parts]})
+                reqs = [a_in(x) for x in parts]
+                self.pend += reqs
+                self.world.events.append({'ev': 'chunk_in', 'reqs': reqs})
                 self.world.raw.append([x[:80].decode('latin-1') for x in parts])
         return piece
 
     def sendall(self, data):
+        self.sends += 1
+        if self.failat is not None and self.sends == self.failat + 1 and not self.failed:
+            self.failed = True          # half of the line is on the wire, the rest cannot be written
+            self.world.events.append({'ev': 'peer', 'what': 'deaf'} if self.role == 'main' else {'ev': 'other_fail'})
+            self.world.raw.append('send fails: ' + self.failexc)
+            raise FAILS[self.failexc](32, 'send failed')
+        evt = None
+        if bytes(data[:12]) == b'error_update':
+            # event or answer to a line "update ..."?  the answer is sent by the request loop itself, an event
+            # passes through the dispatcher (broadcast / activate): look at who is calling
+            f, evt = sys._getframe(1), False
+            while f is not None and not evt:
+                evt = f.f_code.co_filename.endswith('protocol/dispatcher.py')
+                f = f.f_back
         parts = (self.outacc + bytes(data)).split(b'\n')
         self.outacc = parts.pop()
         for x in parts:
-            self._line(x)
+            self._line(x, evt)
 
-    def _line(self, x):
+    def _line(self, x, evt=None):
         o = a_out(x)
+        if evt is not None:
+            o = dict(o, evt=evt)
         if self.role == 'main':
             self.world.events.append({'ev': 'line_out', 'o': o})
-            if o['action'] not in ('update', 'log', '_'):
-                self.replies += 1          # (error_update is a reply here: the scripted modules never fail to read)
+            if not _is_async(o, self.pend):
+                self.replies += 1
+                del self.pend[:1]
         else:
             self.world.events.append({'ev': 'other_out', 'active': self.active, 'o': o})
         self.world.raw.append(x[:160].decode('latin-1'))
@@ -374,18 +470,25 @@ class FakeSocket:
             self.outacc = b''
 
 
-def run_stream(segments, hw='fin', other='idle', detailed=False):
-    """one connection fed with the segments, a second connection on the same dispatcher watching"""
+def run_stream(segments, hw='fin', other='idle', detailed=False, ctor=False, addr=0, failat=None, failexc='pipe'):
+    """one connection fed with the segments, a second connection on the same dispatcher watching
+    (idle, activated, or activated with a socket that fails when the next update is sent to it)"""
     w = World(hw, detailed)
-    s2 = FakeSocket([b'activate\n'] if other == 'active' else [], role='other', active=other == 'active')
-    h2 = w.connect(s2)
+    s2 = FakeSocket([] if other == 'idle' else [b'activate\n'], role='other', active=other != 'idle')
+    h2 = w.connect(s2, ADDRS[(addr + 1) % len(ADDRS)])
     h2.handle()
+    if other == 'broken':
+        s2.failat = s2.sends
     del w.events[:], w.raw[:]
-    s1 = FakeSocket(segments)
-    h1 = w.connect(s1)
-    w.serve(h1)
-    s1.flush()
-    h1.finish()
+    s1 = FakeSocket(segments, failat=failat, failexc=failexc)
+    if ctor:
+        w.serve_ctor(s1, ADDRS[addr % len(ADDRS)])
+        s1.flush()
+    else:
+        h1 = w.connect(s1, ADDRS[addr % len(ADDRS)])
+        w.serve(h1)
+        s1.flush()
+        h1.finish()
     s2.flush()
     h2.finish()
     return w, s1
@@ -393,9 +496,7 @@ def run_stream(segments, hw='fin', other='idle', detailed=False):
 
 def _is_async(o, pend):
     """same rule as Wire!IsAsync (needed to pair replies with requests when building reference answers)"""
-    return o['action'] in ('update', 'log', '_') or \
-        (o['iserr'] and o['base'] == 'update' and not (
-            pend and (pend[0]['act'] == 'update' or not (pend[0]['utf8'] and pend[0]['canon']))))
+    return o['action'] in ('update', 'log', '_') or (o['iserr'] and o['base'] == 'update' and (not pend or o['evt']))
 
 
 def pairs(events):
@@ -480,31 +581,50 @@ def _replay_framing(beh):
 
 
 # ---------------------------------------------------------------- spec -> code: line class sequences
+OTHERS = ['idle', 'active', 'broken']
+
+
 def _replay_classes(item):
     seq, seed = item
     rnd = random.Random(seed)
     stream = b''.join(CLASSES[c] + b'\n' for c in seq)
-    hws = ['fin', 'nan', 'inf'] if 'read_hw' in seq or ('activate' in seq and len(seq) <= 2) else ['fin']
+    hws = ['fin', 'nan', 'inf', 'err', 'exc'] if 'read_hw' in seq or ('activate' in seq and len(seq) <= 2) else ['fin']
     res = {'traces': [], 'raws': [], 'segs': [], 'bad': None}
+    detailed = seed % 5 == 0
+
+    def keep(w, info):
+        res['traces'].append(w.events)
+        res['raws'].append(w.raw)
+        res['segs'].append(info)
+
     for hw in hws:
         ref = None
         for k, segs in enumerate(segmentations(stream, rnd)):
-            w, s1 = run_stream(segs, hw=hw, other='active' if (seed + k) % 2 else 'idle')
+            # the other dimensions of a connection rotate with the segmentation: what the second connection
+            # is, how the handler is driven (constructor like socketserver / step by step), the peer's address
+            w, s1 = run_stream(segs, hw=hw, other=OTHERS[(seed + k) % 3], detailed=detailed, ctor=k == 1, addr=seed + k)
             if s1.replies != len(seq) and not res['bad']:
                 res['bad'] = {'what': 'reply count', 'expected': len(seq), 'observed': s1.replies, 'seg': k, 'hw': hw}
             if ref is None:
                 ref = answers(w.events)
                 mal = [a_in(CLASSES[c])['mal'] for c in seq]
                 if any(mal) and not all(mal):
-                    w2, _ = run_stream([b''.join(CLASSES[c] + b'\n' for c, m in zip(seq, mal) if not m)], hw=hw)
+                    w2, _ = run_stream([b''.join(CLASSES[c] + b'\n' for c, m in zip(seq, mal) if not m)], hw=hw,
+                                       detailed=detailed)
                     w.events.append({'ev': 'ni', 'ref': answers(w2.events)})
                     w.raw.append('ni')
             else:
                 w.events.append({'ev': 'same', 'ref': ref})
                 w.raw.append('same')
-            res['traces'].append(w.events)
-            res['raws'].append(w.raw)
-            res['segs'].append({'hw': hw, 'seg': [None if s is None else len(s) for s in segs]})
+            keep(w, {'hw': hw, 'seg': [None if s is None else len(s) for s in segs]})
+    if len(seq) == 1 or seed % 4 == 0:
+        # the peer leaves: reset while we read / our sends fail (broken pipe, time-out on a full buffer, ...)
+        cut = rnd.randint(0, len(stream))
+        w, _ = run_stream([stream[:cut], RESET], ctor=bool(seed & 8), addr=seed, other=OTHERS[seed % 3])
+        keep(w, {'hw': 'fin', 'seg': [cut, 'RESET']})
+        failat, exc = rnd.randint(0, 3), rnd.choice(sorted(FAILS))
+        w, _ = run_stream([stream], ctor=not seed & 8, addr=seed, other=OTHERS[(seed + 1) % 3], failat=failat, failexc=exc)
+        keep(w, {'hw': 'fin', 'seg': [len(stream)], 'failat': failat, 'failexc': exc})
     return res
 
 
@@ -555,22 +675,26 @@ def _fuzz(seed):
     rnd = random.Random(seed)
     lines = [_gen_line(rnd) for _ in range(rnd.randint(1, 9))]
     stream = b'\n'.join(lines) + (b'\n' if rnd.random() < 0.85 else b'')
-    hw = rnd.choice(['fin', 'fin', 'fin', 'nan', 'inf'])
-    other = rnd.choice(['idle', 'active'])
+    kw = {'hw': rnd.choice(['fin', 'fin', 'fin', 'nan', 'inf', 'err', 'exc']), 'other': rnd.choice(OTHERS),
+          'detailed': rnd.random() < 0.2,          # Interface option detailed_errors
+          'ctor': rnd.random() < 0.5, 'addr': rnd.randrange(len(ADDRS))}
     segs = list(segmentations(stream, rnd))[rnd.choice([0, 1, 2, 2, 2])]
-    detailed = rnd.random() < 0.2          # Interface option detailed_errors
-    w, _ = run_stream(segs, hw=hw, other=other, detailed=detailed)
+    leave = rnd.random()
+    if leave < 0.1:
+        segs = segs[:rnd.randint(0, len(segs))] + [RESET]
+    elif leave < 0.2:
+        kw.update(failat=rnd.randint(0, 6), failexc=rnd.choice(sorted(FAILS)))
+    w, _ = run_stream(segs, **kw)
     # NonInterference on the stream as the handler saw it
     real = stream.split(b'\n')[:-1]
     mal = [a_in(x)['mal'] for x in real]
-    if any(mal) and not all(mal):
-        w2, _ = run_stream([b''.join(x + b'\n' for x, m in zip(real, mal) if not m)], hw=hw, other='idle',
-                           detailed=detailed)
+    if leave >= 0.2 and any(mal) and not all(mal):
+        w2, _ = run_stream([b''.join(x + b'\n' for x, m in zip(real, mal) if not m)], hw=kw['hw'], other='idle',
+                           detailed=kw['detailed'])
         w.events.append({'ev': 'ni', 'ref': answers(w2.events)})
         w.raw.append('ni')
-    return {'trace': w.events, 'raw': w.raw, 'stream': stream.decode('latin-1'), 'hw': hw, 'other': other,
-            'detailed': detailed,
-            'seg': [None if s is None else len(s) for s in segs]}
+    return {'trace': w.events, 'raw': w.raw, 'stream': stream.decode('latin-1'), 'world': kw,
+            'seg': [s if s is None or s == RESET else len(s) for s in segs]}
 
 
 # ---------------------------------------------------------------- LinesWhole: a second thread sends
@@ -612,7 +736,8 @@ def _two_threads(seed):
     gate = {'req': threading.Semaphore(0), 'upd': threading.Semaphore(0)}
     idle = {'req': threading.Event(), 'upd': threading.Event()}
     seen = threading.Event()
-    plan = {'V': None, 'O': None, 'interrupt': False, 'watch': None}
+    plan = {'V': None, 'O': None, 'interrupt': False, 'watch': None, 'failed': False,
+            'failafter': rnd.randint(0, 2) if rnd.random() < 0.35 else None}   # n-th interrupted send fails
 
     class Sock(FakeSocket):
         def recv(self, n):
@@ -635,6 +760,12 @@ def _two_threads(seed):
                 if not wait(seen):           # ... until it is at the send lock or has written a line
                     failed.append('the released thread neither reached the send lock nor wrote a line')
                 plan['watch'] = None
+                if plan['failafter'] == 0:   # the rest of this line cannot be written (the other thread waits)
+                    plan['failed'] = True
+                    frags.append({'ev': 'frag_fail', 'th': me, 'half': 2, 'bytes': ''})
+                    raise BrokenPipeError(32, 'Broken pipe')
+                if plan['failafter'] is not None:
+                    plan['failafter'] -= 1
             frags.append({'ev': 'frag', 'th': me, 'half': 2, 'bytes': data[half:].decode('latin-1')})
             if plan['watch'] == me:
                 seen.set()
@@ -648,7 +779,7 @@ def _two_threads(seed):
             if ev.wait(0.1):
                 return True
             if 'reason' in out:          # the handler has ended: nobody will arrive
-                return ev.wait(0.2)
+                return ev.wait(0.2) or plan['failed']
         return False
 
     def arrived(name):
@@ -686,6 +817,9 @@ def _two_threads(seed):
             budget[o] -= 1
             ok = ok and wait(idle[o])
         turns.append([v, used])
+        if plan['failed']:                   # the connection is broken: the handler ends by itself
+            treq.join(10)
+            break
     gate['req'].release()                    # end of input
     treq.join(10)
     for _ in range(nupd + 1):
@@ -693,11 +827,72 @@ def _two_threads(seed):
     tupd.join(10)
     h.send_lock = h.send_lock.real
     stuck = not ok or bool(failed) or treq.is_alive() or tupd.is_alive()
-    if stuck and out.get('reason', 'eof') == 'eof':
+    if stuck and 'reason' not in out:
         raise MachineryError(f'two-thread scenario stuck (seed {seed}): {failed} turns={turns}')
     h.finish()
     return {'trace': [{k: f[k] for k in ('ev', 'th', 'half')} for f in frags], 'raw': frags,
-            'reason': out.get('reason'), 'turns': turns, 'seed': seed}
+            'reason': 'early' if stuck and out['reason'] == 'returned' else out['reason'], 'turns': turns,
+            'seed': seed, 'sendfail': plan['failed']}
+
+
+# ---------------------------------------------------------------- a real TCPServer on the loopback interface
+def _real_tcp(seed):
+    """the whole interface as the server runs it: TCPServer (socketserver.ThreadingTCPServer, IPv4 or dual
+    stack) accepts a real connection and constructs the handler in its own thread; a real client sends the
+    stream in random pieces, reads until every owed reply has arrived, and closes"""
+    import time
+    rnd = random.Random(seed)
+    w = World(rnd.choice(['fin', 'fin', 'err']), detailed=rnd.random() < 0.3)
+    names = [c for c in sorted(CLASSES) if len(CLASSES[c]) < 40000]
+    seq = [rnd.choice(names) for _ in range(rnd.randint(2, 6))]
+    stream = b''.join(CLASSES[c] + b'\n' for c in seq)
+    reqs = [a_in(CLASSES[c]) for c in seq]
+    from frappy.protocol.interface.tcp import TCPServer
+    ipv6 = bool(seed % 2)
+    log = Log('tcp')
+    server = TCPServer('tcp', log, {'uri': 'tcp://0', 'ipv6': ipv6, 'detailed_errors': w.srv.detailed_errors}, w.srv)
+    th = threading.Thread(target=server.serve_forever, kwargs={'poll_interval': 0.02}, daemon=True)
+    th.start()
+    events, raw = [{'ev': 'chunk_in', 'reqs': reqs}], [seq]
+    reason = 'stuck'
+    try:
+        c = socket.create_connection(('127.0.0.1', server.server_address[1]), timeout=10)
+        for seg in _cut(stream, {rnd.randint(1, len(stream)) for _ in range(rnd.randint(0, 6))}):
+            c.sendall(seg)
+        c.settimeout(10)
+        buf, pend, done = b'', list(reqs), 0
+        while pend:
+            data = c.recv(65536)
+            if not data:
+                break
+            buf += data
+            lines = buf.split(b'\n')
+            buf = lines.pop()
+            for x in lines:
+                o = a_out(x)
+                events.append({'ev': 'line_out', 'o': o})
+                raw.append(x[:160].decode('latin-1'))
+                if not _is_async(o, pend):
+                    del pend[:1]
+        c.close()
+        events.append({'ev': 'peer', 'what': 'eof'})
+        raw.append('eof')
+        for _ in range(300):                 # the handler's thread notices the end and deregisters
+            if not w.srv.dispatcher._connections:
+                reason = 'raised' if log.errors else 'returned'
+                break
+            time.sleep(0.01)
+    except OSError as e:                     # the server closed or reset the connection
+        raw.append(repr(e))
+        events.append({'ev': 'peer', 'what': 'eof'})
+        reason = 'raised'
+    finally:
+        server.shutdown()
+        server.server_close()
+        th.join(5)
+    events.append({'ev': 'handler_end', 'reason': reason})
+    raw.append([reason] + log.errors[:1])
+    return {'trace': events, 'raw': raw, 'seq': seq, 'seed': seed, 'ipv6': ipv6}
 
 
 # ---------------------------------------------------------------- codec inverse law
@@ -936,7 +1131,7 @@ def run(chk):
         for sd in part:
             chk.case(('Z', sd), True)
         groups.append(('fuzz', [x['trace'] for x in res], lambda i, res=res, part=part: {
-            'seed': part[i], **{k: res[i][k] for k in ('raw', 'stream', 'hw', 'other', 'seg', 'detailed')}}))
+            'seed': part[i], **{k: res[i][k] for k in ('raw', 'stream', 'world', 'seg')}}))
         chk.sample({'fuzz_stream': res[0]['stream'][:200], 'seg': res[0]['seg']})
         flush(30000)
 
@@ -946,10 +1141,16 @@ def run(chk):
         raise MachineryError('two-thread scenario never switched threads')
     for x in res:
         chk.case(('T', x['seed']), True)
-        if x['reason'] != 'eof':
+        if x['reason'] != 'returned':
             chk.violation({'module': 'Wire', 'clause': 'HandlerSurvives', 'source': 'threads'}, x)
     groups.append(('threads', [x['trace'] for x in res],
                    lambda i, res=res: {k: res[i][k] for k in ('raw', 'turns', 'seed')}))
+
+    # 5b real sockets: TCPServer + socketserver threads + a real client (wall-clock, generous time-outs)
+    res = [_real_tcp(chk.seed * 53 + i) for i in range(8 if quick else 80)]
+    for x in res:
+        chk.case(('R', x['seed']), True)
+    groups.append(('tcp', [x['trace'] for x in res], lambda i, res=res: {k: res[i][k] for k in ('raw', 'seq', 'seed', 'ipv6')}))
 
     # 6 codec
     r, behs = emit_behaviours('Gen_Wire', 'Gen_Wire_codec.cfg', maximal_only=False, timeout=300)
@@ -964,7 +1165,7 @@ def run(chk):
     good = [{'ev': 'chunk_in', 'reqs': [a_in(b'read m:p'), a_in(b'ping tok')]},          # hand-written
             {'ev': 'line_out', 'o': a_out(b'reply m:p [1.0, {}]')},
             {'ev': 'line_out', 'o': a_out(b'pong tok [null, {"t": 1.5}]')},
-            {'ev': 'handler_end', 'reason': 'eof'}]
+            {'ev': 'peer', 'what': 'eof'}, {'ev': 'handler_end', 'reason': 'returned'}]
     outs = [i for i, e in enumerate(good) if e['ev'] == 'line_out']
     swapped = list(good)
     swapped[outs[0]], swapped[outs[1]] = good[outs[1]], good[outs[0]]
@@ -973,13 +1174,16 @@ def run(chk):
     died = [dict(e, reason='raised') if e['ev'] == 'handler_end' else e for e in good]
     selftest = [(good, None), (swapped, 'Belongs.action'), (wrongspec, 'Belongs.specifier'),
                 (good[:outs[1]] + good[outs[1] + 1:], 'OnePerLine.line_unanswered'),
-                (twice, 'OnePerLine.reply_without_request'), (died, 'HandlerSurvives')]
+                (twice, 'OnePerLine.reply_without_request'), (died, 'HandlerSurvives'),
+                (good[:3] + good[4:], 'HandlerSurvives'),            # ended although the peer is still there
+                (good[:2] + [{'ev': 'peer', 'what': 'deaf'}, good[2]], 'NoWriteAfterFailure'),
+                (good[:2] + [{'ev': 'peer', 'what': 'reset'}, good[4]], None)]
     verdicts = validate([x[0] for x in selftest])[0]
     for i, (_, want) in enumerate(selftest):
         got = verdicts[i][1] if verdicts[i] else None
         if got != want:
             raise MachineryError(f'trace validation self-test {i}: expected {want}, TLC says {got}')
-    chk.notes['binding_selftest'] = 'one accepted trace + 5 corrupted copies rejected with the expected clause'
+    chk.notes['binding_selftest'] = '2 accepted traces + 7 corrupted copies rejected with the expected clause'
     stage('fuzz threads codec selftest')
     flush()
     stage('final judge')
@@ -1016,8 +1220,11 @@ def replay(chk, rep):
         print('direct comparison:', x['bad'])
     elif kind == 'fuzz':
         x = _fuzz(d['seed'])
-        print('stream', x['stream'].encode('latin-1'), 'segments', x['seg'], 'hw', x['hw'], 'other', x['other'],
-              'detailed_errors', x['detailed'])
+        print('stream', x['stream'].encode('latin-1'), 'segments', x['seg'], 'world', x['world'])
+        for e, rw in zip(x['trace'], x['raw']):
+            print('  ', e['ev'], rw)
+    elif kind == 'tcp':
+        x = _real_tcp(d['seed'])
         for e, rw in zip(x['trace'], x['raw']):
             print('  ', e['ev'], rw)
     elif kind == 'threads':
